@@ -2,7 +2,7 @@
    Only statements closed by [exact]; proofs live in proof/TtlProofs.v.
    Time: [now] is time.Now() in nanoseconds; second-granular clock reads are now / NS. *)
 From Coq Require Import List NArith ZArith Bool String.
-From SW Require Import model.Ttl proof.TtlProofs proof.TtlFilerProofs.
+From SW Require Import model.Ttl model.TtlHist proof.TtlProofs proof.TtlFilerProofs proof.TtlHistProofs.
 Import ListNotations.
 Local Open Scope N_scope.
 
@@ -332,3 +332,82 @@ Example c09_filer_history_example :
   read_visible ((T0 + 61) * NS + 500000000) (ex_tab 0) = false.
 Proof. exact filer_history_example. Qed.
 Print Assumptions c09_filer_history_example.
+
+(* ---------------- histories of uploads of one key: which upload the lifetime counts from ----------------
+   model/TtlHist.v: uploads (any ttl=, ts=, cookie, content), aging, reads and expiry
+   questions on ONE key of one volume; [hwant] is the record the LAST ACKNOWLEDGED upload
+   asked for (moved by the aging steps after it), [hpromise] what a read must return. *)
+
+(* TTL volumes, full: after every history a read returns exactly what the last
+   acknowledged upload promised: its content, while now < ITS append clock + its TTL *)
+Theorem c09_hist_window_ttl_volume : forall vttl l st now, ttl_volume vttl = true ->
+  hread now (fst (hrun vttl st l)) = hpromise now (hwant vttl st (h_rec st) l).
+Proof. exact hist_window_ttl_volume. Qed.
+Print Assumptions c09_hist_window_ttl_volume.
+
+(* the explicit window: history, an acknowledged upload, then reads/expiry questions *)
+Theorem c09_hist_last_upload_window : forall vttl pre post st req ts cookie data parse_s append_ns u now,
+  ttl_volume vttl = true -> forallb hquery post = true ->
+  let o := HUpload req ts cookie data parse_s append_ns in
+  let n := write_needle vttl (create_needle req ts parse_s) append_ns in
+  snd (hstep vttl (fst (hrun vttl st pre)) o) = HAck u ->
+  expiring n = true ->
+  (hread now (fst (hrun vttl st (pre ++ o :: post))) = Some data <->
+   now < append_ns + minutes (n_ttl n) * 60000000000) /\
+  (hread now (fst (hrun vttl st (pre ++ o :: post))) = None <->
+   append_ns + minutes (n_ttl n) * 60000000000 <= now).
+Proof. exact hist_last_upload_window. Qed.
+Print Assumptions c09_hist_last_upload_window.
+
+(* an upload into a TTL volume is refused (cookie) or writes a new record with this
+   upload's append clock and raises the volume's stamp: never deduplicated *)
+Theorem c09_ttl_volume_upload : forall vttl st req ts cookie data parse_s append_ns,
+  ttl_volume vttl = true ->
+  let o := HUpload req ts cookie data parse_s append_ns in
+  (hstep vttl st o = (st, HRefused)) \/
+  (snd (hstep vttl st o) = HAck false /\
+   h_rec (fst (hstep vttl st o)) = Some (hstored vttl req ts cookie data parse_s append_ns) /\
+   h_stamp (fst (hstep vttl st o)) = vol_stamp_after_write (h_stamp st) (last_modified (create_needle req ts parse_s))).
+Proof. exact ttl_volume_upload. Qed.
+Print Assumptions c09_ttl_volume_upload.
+
+(* the volume is not called expired before its TTL (+1 min) has passed since the last
+   acknowledged upload's LastModified *)
+Theorem c09_hist_last_upload_volume_alive : forall vttl pre post st req ts cookie data parse_s append_ns u now_s size limit,
+  ttl_volume vttl = true -> forallb hquery post = true ->
+  let o := HUpload req ts cookie data parse_s append_ns in
+  snd (hstep vttl (fst (hrun vttl st pre)) o) = HAck u ->
+  volume_expired now_s (hvolume vttl (fst (hrun vttl st (pre ++ o :: post))) size limit) = true ->
+  last_modified (create_needle req ts parse_s) + (minutes (read_ttl vttl) + 1) * 60 <= now_s.
+Proof. exact hist_last_upload_volume_alive. Qed.
+Print Assumptions c09_hist_last_upload_volume_alive.
+
+(* all volumes: refuted in full (finding 6: a volume without TTL acknowledges a
+   byte-identical re-upload of a ttl= blob without a new record, so the blob expires
+   counted from the FIRST upload); exact partial: no deduplicated step in the history *)
+Theorem c09_hist_window_refuted :
+  exists vttl l st now, hread now (fst (hrun vttl st l)) <> hpromise now (hwant vttl st (h_rec st) l).
+Proof. exact hist_window_refuted. Qed.
+Print Assumptions c09_hist_window_refuted.
+
+Theorem c09_hist_window_partial : forall vttl l st now, dedup_trigger vttl st l = false ->
+  hread now (fst (hrun vttl st l)) = hpromise now (hwant vttl st (h_rec st) l).
+Proof. exact hist_window_partial. Qed.
+Print Assumptions c09_hist_window_partial.
+
+Theorem c09_ttl_volume_no_dedup : forall vttl l st, ttl_volume vttl = true -> dedup_trigger vttl st l = false.
+Proof. exact ttl_volume_no_dedup. Qed.
+Print Assumptions c09_ttl_volume_no_dedup.
+
+(* non-vacuity: 1h volume; upload, aged two hours (expired), the same bytes uploaded
+   again: acknowledged, new record, readable again *)
+Example c09_hist_example :
+  ttl_volume "1h" = true /\
+  snd (hstep "1h" (fst (hrun "1h" {| h_rec := None; h_stamp := 0 |} example_hist))
+         (HUpload "" 0 7 1 8200 8200000000000)) = HAck false /\
+  expiring (write_needle "1h" (create_needle "" 0 8200) 8200000000000) = true /\
+  hread 8300000000000 (fst (hrun "1h" {| h_rec := None; h_stamp := 0 |} example_hist)) = None /\
+  hread 8300000000000 (fst (hrun "1h" {| h_rec := None; h_stamp := 0 |}
+                              (example_hist ++ [HUpload "" 0 7 1 8200 8200000000000]))) = Some 1.
+Proof. exact hist_example. Qed.
+Print Assumptions c09_hist_example.
